@@ -29,7 +29,14 @@ def main():
     signal.signal(signal.SIGALRM, _alarm)
     faulthandler.enable()
     with open(fout, "w") as out:
+        seen_D = set()
         for ci, case in shard:
+            # the FIRST run of each dimension in this process gets a process-history prelude (see RunMonitor._run_prelude):
+            # state kept per process is most often keyed by D and filled by whoever comes first
+            if isinstance(case, dict) and isinstance(case.get("spec"), dict) and "prelude" not in case and case["spec"].get("target", {}).get("kind") != "scripted":
+                if case["spec"].get("D") not in seen_D:
+                    seen_D.add(case["spec"].get("D"))
+                    case["prelude"] = True
             t0 = time.time()
             try:
                 signal.setitimer(signal.ITIMER_REAL, tmo)
